@@ -118,6 +118,8 @@ func structuralAtom(a string) bool {
 		return true // a child decoder or helper failed
 	case strings.HasPrefix(a, "default("):
 		return true // no case of the dispatch applies
+	case strings.HasPrefix(a, "!(haskey("):
+		return true // the lookup table has no entry for the code
 	case strings.HasSuffix(a, "==nil") && !strings.HasPrefix(a, "!(") && !strings.Contains(a, "err") && a != "nil==nil":
 		return true // nothing was allocated for the code
 	}
